@@ -12,7 +12,7 @@ from __future__ import annotations
 import ast
 
 from .. import ctx
-from ..pattern import find, is_name, match
+from ..pattern import canon, find, is_name, match
 from ..project import AnalysisError, norm
 from ..specmodel import ClassV, FuncV
 
@@ -88,6 +88,47 @@ def m2_accessor(run, project):
                module=mod, node=f, func="Bit.__get__", construct="Bit.__get__ masking")
         return
     st = cand[0][0]._parent
+    if isinstance(st, ast.BinOp) and isinstance(st.op, ast.RShift) and st.left is cand[0][0]:
+        # closed form: (value & mask) >> <shift>; the shift must be the number of trailing zeros of the mask
+        run.ob("M2", True, "accessor masks the value")
+        sh = st.right
+        init = mod.functions().get("tpm_bitfield.decorator.Bit.__init__")
+        expr = sh
+        if isinstance(sh, ast.Attribute) and isinstance(sh.value, ast.Name) and sh.value.id == "self" and init is not None:
+            d = [a for a in ast.walk(init) if isinstance(a, ast.Assign) and norm(a.targets[0]) == norm(sh)]
+            if len(d) != 1:
+                raise AnalysisError(f"M2: `{norm(sh)}` is not assigned exactly once in Bit.__init__")
+            expr = d[0].value
+        m = "self._mask" if expr is sh else init.args.args[2].arg
+        good = {canon(f"({m} & -{m}).bit_length() - 1"), canon(f"({m} & ~({m} - 1)).bit_length() - 1")}
+        wrong = {canon(f"{m}.bit_length() - 1"), canon(f"{m}.bit_length()")}
+        if norm(expr) in good:
+            run.ob("M2", True, "accessor shifts by the mask's trailing zeros")
+        elif norm(expr) in wrong:
+            run.ob("M2", False, "accessor shifts by the mask's trailing zeros",
+                   f"the field is shifted down by `{norm(expr)}` - the position of the mask's HIGHEST bit: every multi-bit field "
+                   "reads only its top bit instead of its right-aligned value", module=mod, node=expr, func="Bit.__get__",
+                   construct="Bit shift amount")
+        else:
+            raise AnalysisError(f"M2: shift amount `{norm(expr)}` of the accessor is not a recognised trailing-zero count")
+        ret = st._parent
+        run.ob("M2", isinstance(ret, ast.Return), "accessor returns the shifted field bits", "the shifted bits are not returned",
+               module=mod, node=st, func="Bit.__get__", construct="Bit.__get__ return")
+    else:
+        m2_loop_form(run, mod, f, cand[0][0], st)
+    # attributes(): every public non-routine attribute of type(self)
+    a = mod.functions().get("tpm_bitfield.decorator.attributes")
+    if a is None:
+        raise AnalysisError("M2: attributes() of tpm_bitfield not found")
+    gens = [g for g in ast.walk(a) if isinstance(g, ast.GeneratorExp)]
+    ok = (len(gens) == 1 and norm(gens[0].generators[0].iter) == "inspect.getmembers(type(self))"
+          and len(gens[0].generators[0].ifs) == 1
+          and norm(gens[0].generators[0].ifs[0]).startswith("_is_public_non_funtion_attr("))
+    run.ob("M2", ok, "attributes() enumerates every mask", "attributes() no longer yields all public mask attributes",
+           module=mod, node=a, func="attributes", construct="attributes() members")
+
+
+def m2_loop_form(run, mod, f, masked, st):
     if not (isinstance(st, ast.Assign) and isinstance(st.targets[0], ast.Name)):
         raise AnalysisError("M2: masking expression is not assigned to a local")
     bits = st.targets[0].id
@@ -114,16 +155,6 @@ def m2_accessor(run, project):
     run.ob("M2", len(rets) == 1 and is_name(rets[0].value, bits), "accessor returns the shifted field bits",
            "instance path does not return the shifted bits", module=mod, node=st, func="Bit.__get__",
            construct="Bit.__get__ return")
-    # attributes(): every public non-routine attribute of type(self)
-    a = mod.functions().get("tpm_bitfield.decorator.attributes")
-    if a is None:
-        raise AnalysisError("M2: attributes() of tpm_bitfield not found")
-    gens = [g for g in ast.walk(a) if isinstance(g, ast.GeneratorExp)]
-    ok = (len(gens) == 1 and norm(gens[0].generators[0].iter) == "inspect.getmembers(type(self))"
-          and len(gens[0].generators[0].ifs) == 1
-          and norm(gens[0].generators[0].ifs[0]).startswith("_is_public_non_funtion_attr("))
-    run.ob("M2", ok, "attributes() enumerates every mask", "attributes() no longer yields all public mask attributes",
-           module=mod, node=a, func="attributes", construct="attributes() members")
 
 
 def m2_rows(run, project):
